@@ -90,20 +90,34 @@ func (s *sink) pump(r io.Reader) {
 	}
 }
 
-func (s *sink) waitLen(n int, d time.Duration) ([]byte, bool) {
+// view returns the complete frames received so far without the synchronisation PINGs, and how many of
+// those PINGs have arrived.
+func (s *sink) view() ([]byte, int) {
+	s.mu.Lock()
+	raw := append([]byte(nil), s.buf...)
+	s.mu.Unlock()
+	var out []byte
+	syncs := 0
+	for _, f := range splitFrames(raw) {
+		if f[3] == 0x6 && len(f) == 17 && string(f[9:13]) == "VFSY" {
+			syncs++
+			continue
+		}
+		out = append(out, f...)
+	}
+	return out, syncs
+}
+
+// waitLen waits until at least n octets of frames (synchronisation PINGs not counted) and at least
+// syncs synchronisation PINGs have arrived.
+func (s *sink) waitLen(n, syncs int, d time.Duration) ([]byte, bool) {
 	deadline := time.Now().Add(d)
 	for {
-		s.mu.Lock()
-		if len(s.buf) >= n {
-			out := append([]byte(nil), s.buf...)
-			s.mu.Unlock()
+		out, k := s.view()
+		if len(out) >= n && k >= syncs {
 			return out, true
 		}
-		s.mu.Unlock()
 		if time.Now().After(deadline) {
-			s.mu.Lock()
-			out := append([]byte(nil), s.buf...)
-			s.mu.Unlock()
 			return out, false
 		}
 		time.Sleep(200 * time.Microsecond)
@@ -202,6 +216,7 @@ func (env *e2eEnv) PlayE2E(name string, c *Case, perStep time.Duration) E2EResul
 	go toC.pump(clientEnd)
 	go toS.pump(server)
 	var wantC, wantS []byte
+	syncC, syncS := 0, 0 // synchronisation PINGs each endpoint must have received
 	for i, st := range c.Steps {
 		w := io.Writer(server)
 		if st.From == "C" {
@@ -210,11 +225,27 @@ func (env *e2eEnv) PlayE2E(name string, c *Case, perStep time.Duration) E2EResul
 		if _, err := w.Write(st.Raw); err != nil {
 			return fail(i, "writing frame: %v", err)
 		}
+		// a PING from the same endpoint right behind the frame: the relay forwards it when it has finished
+		// processing the frame (frames that cause no output would otherwise leave the two relay goroutines
+		// at different points of the history than in the rig's sequential run)
+		// (not inside an unfinished header block: only CONTINUATION may follow there)
+		openBlock := (st.In.T == "headers" || st.In.T == "push" || st.In.T == "cont") && !st.In.EH
+		if !openBlock {
+			ping := []byte{0, 0, 8, 0x6, 0, 0, 0, 0, 0, 'V', 'F', 'S', 'Y', byte(i >> 16), byte(i >> 8), byte(i), 0}
+			if _, err := w.Write(ping); err != nil {
+				return fail(i, "writing sync ping: %v", err)
+			}
+			if st.From == "C" {
+				syncS++
+			} else {
+				syncC++
+			}
+		}
 		wantC = append(wantC, st.RawToC...)
 		wantS = append(wantS, st.RawToS...)
 		t0 := time.Now()
-		gc, okc := toC.waitLen(len(wantC), perStep)
-		gs, oks := toS.waitLen(len(wantS), perStep)
+		gc, okc := toC.waitLen(len(wantC), syncC, perStep)
+		gs, oks := toS.waitLen(len(wantS), syncS, perStep)
 		if ms := time.Since(t0).Milliseconds(); ms > res.WaitedMs {
 			res.WaitedMs = ms
 		}
@@ -246,13 +277,14 @@ func (env *e2eEnv) PlayE2E(name string, c *Case, perStep time.Duration) E2EResul
 				clientEnd.Close()
 				return res
 			}
-			return fail(i, "frames differ from the rig's after frame %d (%s %s id=%d)", i, st.From, st.In.T, st.In.ID)
+			return fail(i, "frames differ from the rig's after frame %d (%s %s id=%d): %s", i, st.From, st.In.T, st.In.ID,
+				firstDiff(gc, wantC, "client")+firstDiff(gs, wantS, "server"))
 		}
 	}
 	// nothing more may arrive
 	time.Sleep(20 * time.Millisecond)
-	gc, _ := toC.waitLen(0, 0)
-	gs, _ := toS.waitLen(0, 0)
+	gc, _ := toC.view()
+	gs, _ := toS.view()
 	if len(gc) != len(wantC) || len(gs) != len(wantS) {
 		return fail(len(c.Steps), "extra octets after the history: client %d/%d, server %d/%d", len(gc), len(wantC), len(gs), len(wantS))
 	}
@@ -266,4 +298,30 @@ func (env *e2eEnv) PlayE2E(name string, c *Case, perStep time.Duration) E2EResul
 	}
 	res.OK = true
 	return res
+}
+
+// firstDiff describes the first frame in which what an endpoint got differs from what the rig's run gave it.
+func firstDiff(got, want []byte, who string) string {
+	fg, fw := parseAll(got), parseAll(want)
+	rg, rw := splitFrames(got), splitFrames(want)
+	for i := 0; i < len(rg) || i < len(rw); i++ {
+		if i >= len(rg) {
+			return fmt.Sprintf("%s misses frame #%d %s id=%d len=%d; ", who, i, fw[i].T, fw[i].ID, fw[i].FLen)
+		}
+		if i >= len(rw) {
+			return fmt.Sprintf("%s got extra frame #%d %s id=%d len=%d; ", who, i, fg[i].T, fg[i].ID, fg[i].FLen)
+		}
+		if !bytes.Equal(rg[i], rw[i]) {
+			return fmt.Sprintf("%s frame #%d: got %s id=%d len=%d es=%v eh=%v %x, rig %s id=%d len=%d es=%v eh=%v %x; ", who, i,
+				fg[i].T, fg[i].ID, fg[i].FLen, fg[i].ES, fg[i].EH, head(rg[i]), fw[i].T, fw[i].ID, fw[i].FLen, fw[i].ES, fw[i].EH, head(rw[i]))
+		}
+	}
+	return ""
+}
+
+func head(b []byte) []byte {
+	if len(b) > 40 {
+		return b[:40]
+	}
+	return b
 }
